@@ -2,6 +2,7 @@ package world
 
 import (
 	"context"
+	"encoding/hex"
 	"encoding/json"
 	"fmt"
 	"net"
@@ -13,6 +14,7 @@ import (
 	"strings"
 	"time"
 
+	"github.com/herumi/bls-eth-go-binary/bls"
 	pb "github.com/wealdtech/eth2-signer-api/pb/v1"
 	"google.golang.org/grpc"
 )
@@ -26,18 +28,50 @@ type ExternalEnv struct {
 	Other  *PKI
 	Binary string
 	B      *Base // the world that was written to the wallet store (names, keys); no service of it is used
+	Spec   Spec
+	ID     uint64
 	proc   *exec.Cmd
+}
+
+// Node describes one instance of a cluster of real binaries.
+type Node struct {
+	ID    uint64
+	Name  string            // server name = certificate subject = peer name (an IP literal works without name resolution)
+	Addr  string            // listen address host:port ("" = 127.0.0.1 with a free port)
+	Peers map[uint64]string // id -> name:port, this instance included ("" = itself and a fictitious signer-2)
+	PKI   *PKI              // shared authority of the cluster (nil = a fresh one)
+	Other *PKI
+}
+
+// FreeAddr returns host:port with a currently free port on host.
+func FreeAddr(host string) (string, error) {
+	l, err := net.Listen("tcp", host+":0")
+	if err != nil {
+		return "", err
+	}
+	addr := l.Addr().String()
+	_ = l.Close()
+	return addr, nil
 }
 
 // PrepareExternal writes wallets, certificates and configuration; perms: client -> wallet -> operations.
 func PrepareExternal(ctx context.Context, log *Log, mode, binary string, spec Spec, perms map[string]map[string]string) (*ExternalEnv, error) {
-	pki, err := NewPKI("verif CA")
-	if err != nil {
-		return nil, err
+	return PrepareExternalNode(ctx, log, mode, binary, spec, perms, Node{ID: 1, Name: "signer-1"})
+}
+
+// PrepareExternalNode is PrepareExternal for one node of a cluster.
+func PrepareExternalNode(ctx context.Context, log *Log, mode, binary string, spec Spec, perms map[string]map[string]string, node Node) (*ExternalEnv, error) {
+	pki, other := node.PKI, node.Other
+	var err error
+	if pki == nil {
+		if pki, err = NewPKI("verif CA"); err != nil {
+			return nil, err
+		}
 	}
-	other, err := NewPKI("another CA")
-	if err != nil {
-		return nil, err
+	if other == nil {
+		if other, err = NewPKI("another CA"); err != nil {
+			return nil, err
+		}
 	}
 	base, err := os.MkdirTemp("", "dirkbase")
 	if err != nil {
@@ -53,7 +87,7 @@ func PrepareExternal(ctx context.Context, log *Log, mode, binary string, spec Sp
 	if mode == "foreignchain" {
 		issuer = other
 	}
-	sder, skey, err := issuer.Issue("signer-1", true, false, false)
+	sder, skey, err := issuer.Issue(node.Name, true, false, false)
 	if err != nil {
 		return nil, err
 	}
@@ -61,12 +95,12 @@ func PrepareExternal(ctx context.Context, log *Log, mode, binary string, spec Sp
 	if mode == "samechain" || mode == "foreignchain" {
 		serverPEM = append(append([]byte{}, serverPEM...), issuer.CAPEM...)
 	}
-	l, err := net.Listen("tcp", "127.0.0.1:0")
-	if err != nil {
-		return nil, err
+	addr := node.Addr
+	if addr == "" {
+		if addr, err = FreeAddr("127.0.0.1"); err != nil {
+			return nil, err
+		}
 	}
-	addr := l.Addr().String()
-	_ = l.Close()
 	pass := b.Spec.Passphrase
 	files := map[string][]byte{"server.crt": serverPEM, "server.key": keyPEM(skey), "ca.crt": pki.CAPEM, "pass.txt": []byte(pass)}
 	for n, data := range files {
@@ -75,6 +109,19 @@ func PrepareExternal(ctx context.Context, log *Log, mode, binary string, spec Sp
 		}
 	}
 	_, port, _ := net.SplitHostPort(addr)
+	peers := node.Peers
+	if peers == nil {
+		peers = map[uint64]string{node.ID: node.Name + ":" + port, node.ID + 1: "signer-2:9092"}
+	}
+	var pp strings.Builder
+	pids := make([]uint64, 0, len(peers))
+	for id := range peers {
+		pids = append(pids, id)
+	}
+	sort.Slice(pids, func(i, j int) bool { return pids[i] < pids[j] })
+	for _, id := range pids {
+		fmt.Fprintf(&pp, "  %d: %s\n", id, peers[id])
+	}
 	var pb strings.Builder
 	clients := make([]string, 0, len(perms))
 	for c := range perms {
@@ -94,8 +141,8 @@ func PrepareExternal(ctx context.Context, log *Log, mode, binary string, spec Sp
 	}
 	cfg := fmt.Sprintf(`log-level: warn
 server:
-  id: 1
-  name: signer-1
+  id: %d
+  name: %s
   listen-address: %s
 certificates:
   server-cert: file://%s/server.crt
@@ -107,9 +154,7 @@ stores:
   type: filesystem
   location: %s
 peers:
-  1: signer-1:%s
-  2: signer-2:9092
-unlocker:
+%sunlocker:
   wallet-passphrases:
   - file://%s/pass.txt
   account-passphrases:
@@ -118,11 +163,11 @@ process:
   generation-passphrase: file://%s/pass.txt
   generation-timeout: 10s
 permissions:
-%s`, addr, base, base, base, base, wallets, port, base, base, base, pb.String())
+%s`, node.ID, node.Name, addr, base, base, base, base, wallets, pp.String(), base, base, base, pb.String())
 	if err := os.WriteFile(filepath.Join(base, "dirk.yml"), []byte(cfg), 0o600); err != nil {
 		return nil, err
 	}
-	return &ExternalEnv{Dir: base, Addr: addr, PKI: pki, Other: other, Binary: binary, B: b}, nil
+	return &ExternalEnv{Dir: base, Addr: addr, PKI: pki, Other: other, Binary: binary, B: b, Spec: spec, ID: node.ID}, nil
 }
 
 // StorageDir is where the binary keeps its slashing-protection database.
@@ -291,5 +336,144 @@ func (r *Runner) RunRemote(ctx context.Context, sc *Scenario, binary string) err
 	env.Kill()
 	r.RawDump(env.StorageDir(), env.B, "final")
 	r.Log.Emit(Ev{"ev": "End", "sc": sc.ID, "faults_hit": []string{}, "passages": 0})
+	return nil
+}
+
+// RunRemoteDkg runs ONE fault-free key generation on a cluster of real dirk binaries that talk to each other over their own gRPC
+// sender / receiver with mutual TLS (nodes are named by loopback addresses 127.0.0.1x so that no name resolution is needed), then
+// observes the result the way a client can (list, sign by name, sign by share key, on every participant) and, after stopping the
+// binaries, from the wallet stores on disk.  Events are those of the in-process cluster (Outcome, Holds, Usable, Threshold).
+func RunRemoteDkg(ctx context.Context, sc *DkgScenario, binary string, log *Log) error {
+	pki, err := NewPKI("verif CA")
+	if err != nil {
+		return err
+	}
+	other, err := NewPKI("another CA")
+	if err != nil {
+		return err
+	}
+	ids := append([]uint64{}, sc.IDs...)
+	sort.Slice(ids, func(i, j int) bool { return ids[i] < ids[j] })
+	names, addrs, peers := map[uint64]string{}, map[uint64]string{}, map[uint64]string{}
+	for i, id := range ids {
+		names[id] = fmt.Sprintf("127.0.0.%d", 11+i)
+		a, err := FreeAddr(names[id])
+		if err != nil {
+			return err
+		}
+		addrs[id] = a
+		peers[id] = a
+	}
+	wn, _, _ := strings.Cut(sc.Account, "/")
+	spec := Spec{Wallets: []WalletSpec{{Name: "W1", Type: "nd", Accounts: []AccountSpec{{Name: "a0", KeyIdx: 0}}}, {Name: wn, Type: "distributed"}}}
+	envs := map[uint64]*ExternalEnv{}
+	defer func() {
+		for _, e := range envs {
+			e.Kill()
+			e.Remove()
+		}
+	}()
+	for _, id := range ids {
+		e, err := PrepareExternalNode(ctx, log, "bare", binary, spec, map[string]map[string]string{"c1": {"W1": "All", wn: "All"}},
+			Node{ID: id, Name: names[id], Addr: addrs[id], Peers: peers, PKI: pki, Other: other})
+		if err != nil {
+			return err
+		}
+		envs[id] = e
+	}
+	for _, id := range ids {
+		if err := envs[id].Start(); err != nil {
+			return err
+		}
+	}
+	log.Emit(Ev{"ev": "Begin", "sc": sc.ID, "remote": true})
+	dial := func(id uint64) (*grpc.ClientConn, error) { return envs[id].Dialer().Dial(ctx, "valid-c1") }
+	conn, err := dial(sc.Initiator)
+	if err != nil {
+		return err
+	}
+	gctx, cancel := context.WithTimeout(ctx, 60*time.Second)
+	res, gerr := pb.NewAccountManagerClient(conn).Generate(gctx, &pb.GenerateRequest{Account: sc.Account, Passphrase: []byte("pass"), Participants: sc.N, SigningThreshold: sc.T})
+	cancel()
+	_ = conn.Close()
+	ok := gerr == nil && res != nil && res.GetState() == pb.ResponseState_SUCCEEDED
+	out := Ev{"ev": "Outcome", "ok": ok, "n": sc.N, "t": sc.T, "faults_hit": []string{}}
+	parts := []uint64{}
+	composite := ""
+	if res != nil {
+		out["message"] = res.GetMessage()
+		composite = hex.EncodeToString(res.GetPublicKey())
+		out["pubkey"] = composite
+		for _, p := range res.GetParticipants() {
+			parts = append(parts, p.GetId())
+		}
+	}
+	if gerr != nil {
+		out["message"] = gerr.Error()
+	}
+	sort.Slice(parts, func(i, j int) bool { return parts[i] < parts[j] })
+	out["participants"] = parts
+	log.Emit(out)
+	// what a client sees on every instance while it runs
+	domain := domainBytes("randao", 0x44)
+	data := rootBytes("D")
+	root := SigningRoot([32]byte(data), domain)
+	listed := map[uint64]bool{}
+	sigs := map[uint64]bls.Sign{}
+	for _, id := range ids {
+		c, err := dial(id)
+		if err != nil {
+			continue
+		}
+		cctx, ccancel := context.WithTimeout(ctx, 20*time.Second)
+		var share []byte
+		listOK := false
+		if lres, err := pb.NewListerClient(c).ListAccounts(cctx, &pb.ListAccountsRequest{Paths: []string{wn}}); err == nil {
+			for _, a := range lres.GetDistributedAccounts() {
+				if a.GetName() == sc.Account {
+					listed[id] = true
+					share = a.GetPublicKey()
+					listOK = hex.EncodeToString(a.GetCompositePublicKey()) == composite
+				}
+			}
+		}
+		signOK, signKeyOK := false, false
+		if r1, err := pb.NewSignerClient(c).Sign(cctx, &pb.SignRequest{Id: &pb.SignRequest_Account{Account: sc.Account}, Domain: domain, Data: data}); err == nil && r1.GetState() == pb.ResponseState_SUCCEEDED {
+			var sg bls.Sign
+			if sg.Deserialize(r1.GetSignature()) == nil {
+				sigs[id] = sg
+				signOK = true
+			}
+		}
+		if len(share) == 48 {
+			if r2, err := pb.NewSignerClient(c).Sign(cctx, &pb.SignRequest{Id: &pb.SignRequest_PublicKey{PublicKey: share}, Domain: domain, Data: data}); err == nil {
+				signKeyOK = r2.GetState() == pb.ResponseState_SUCCEEDED && len(r2.GetSignature()) > 0
+			}
+		}
+		ccancel()
+		_ = c.Close()
+		if ok {
+			log.Emit(Ev{"ev": "Usable", "inst": id, "sign": signOK, "signkey": signKeyOK, "list": listOK})
+		}
+	}
+	if ok {
+		thresholdEvent(log, parts, sigs, composite, int(sc.T), root)
+	}
+	// stop the binaries; read what they left on disk
+	for _, id := range ids {
+		envs[id].Kill()
+	}
+	for _, id := range ids {
+		e := envs[id]
+		xb, err := NewBase(ctx, e.Spec, log, NewControl(log))
+		if err != nil {
+			return err
+		}
+		cl := &Cluster{}
+		info := cl.Inspect(ctx, &Instance{ID: id, B: xb}, sc.Account)
+		log.Emit(Ev{"ev": "Holds", "inst": id, "present": info.Present, "in_fetcher": listed[id], "composite": info.Composite, "share": info.Share,
+			"threshold": info.Threshold, "vvec": info.VVec, "nvvec": len(info.VVec), "participants": info.Participants, "share_ok": info.ShareOK, "crashed": false})
+	}
+	log.Emit(Ev{"ev": "End", "sc": sc.ID, "crashed": []uint64{}})
 	return nil
 }
